@@ -326,3 +326,7 @@ class FakeRandom:
     def randrange(self, n):
         S.draw_log.append(n)
         return S.cur_draw if S.cur_draw < n else 0
+
+    def Random(self, *a):
+        """A tracer that creates a generator of its own (random.Random()) gets the scripted one."""
+        return self
